@@ -276,6 +276,18 @@ func runC11(tier string, seed int64, out *Out) {
 			cdcnLineWith(nt, out, "C11", caseID, sn.text, J{"gen": "after-rejection", "expect": encVal(sn.val)})
 		}
 	}
+	// ... and after it rejected a LONG document near its top (thousands of unread tokens behind the error point):
+	// whatever cleans up after the abandoned parse must not touch the next document's tokens
+	for round := 0; round < 12; round++ {
+		nt := cdc.Notation().Make()
+		bad := "[1 2](List)" + strings.Repeat(" 1 , 2 [ ] : nil \n", 60+10*round)
+		cdcnLineWith(nt, out, "C12", 0, bad, J{"gen": "seq-bad-long"})
+		for i := 0; i < 3; i++ {
+			sn := g.collection(2 + i)
+			caseID++
+			cdcnLineWith(nt, out, "C11", caseID, sn.text, J{"gen": "after-long-rejection", "expect": encVal(sn.val)})
+		}
+	}
 	// sets and repeated keys: ordering, de-duplication, first position / last value
 	emit(sentence{"[3, 1, 2, 3, 1](Set)", col.Set[any](notation).MakeFromArray([]any{int64(1), int64(2), int64(3)}), 6}, J{"gen": "set"})
 	emit(sentence{"[\"b\", \"a\", 2, 1, nil, true](Set)", col.Set[any](notation).MakeFromArray([]any{nil, true, int64(1), int64(2), "a", "b"}), 7}, J{"gen": "set"})
